@@ -64,6 +64,7 @@ REQUIRED_THEOREMS = [
     "Acn.C09.decode_encode", "Acn.C09.decode_encode_iff", "Acn.C09.decode_encode_amb",
     "Acn.C09.roundtrip_resume_eq", "Acn.C09.roundtrip_iff",
     "Acn.C09.body_preserves_wf", "Acn.C09.reachable_wf", "Acn.C09.crash_json_resume_eq",
+    "Acn.C09.resume_eq_stateful", "Acn.C09.reachable_wf_stateful", "Acn.C09.crash_json_resume_eq_stateful",
 ]
 BUDGET = {"quick": 40, "thorough": 450, "search": 120}
 TRUSTED = ["json.dumps/json.loads round-trip Python floats, ints, strings, lists and dicts exactly (dict order kept)",
@@ -1124,6 +1125,10 @@ def _compare_sorted(case, obs, sr):
     scn, k = case["scn"], int(case["k"])
     m = S.decode_model(sr)
     a = obs["a"]
+    if a["err"] is not None and a["err"] != m["err"]:
+        # the UNINTERRUPTED run raised inside the algorithm with an error class the composition model names
+        # differently: error parity of the sorted algorithms is C07/C08's correspondence, not this property's
+        return []
     diffs = []
     S.compare_state(scn, a, m, diffs, tag="uninterrupted: ")
     stateful = _hidden_state(scn)
